@@ -155,16 +155,53 @@ theorem baseTy_reduce : ∀ t : Ty, ptrSafe t = true → baseTy (reduce t) = red
   | .any, _ => rfl
   | .arr n t, _ => by simp only [baseTy, reduce]
 
+/-- `ptrSafe` types have no defined type on the pointer path: `embBase` is `baseTy` -/
+theorem embBase_eq_baseTy : ∀ t : Ty, ptrSafe t = true → embBase t = baseTy t
+  | .ptr t, h => by
+    simp only [ptrSafe, Bool.and_eq_true] at h
+    simp only [embBase, baseTy]; exact embBase_eq_baseTy t h.2
+  | .named n t, h => by simp [ptrSafe] at h
+  | .slice t, _ => rfl
+  | .map k v, _ => rfl
+  | .struct fs, _ => rfl
+  | .bool, _ => rfl | .int k, _ => rfl | .f32, _ => rfl | .f64, _ => rfl | .str, _ => rfl | .bytes, _ => rfl
+  | .any, _ => rfl
+  | .arr n t, _ => rfl
+
+theorem embBase_reduceS : ∀ t : Ty, ptrSafe t = true → embBase (reduceS t) = baseTy (reduceS t)
+  | .ptr t, h => by
+    simp only [ptrSafe, Bool.and_eq_true] at h
+    simp only [reduceS]; exact embBase_reduceS t h.2
+  | .named n t, h => by simp [ptrSafe] at h
+  | .slice t, _ => by simp only [reduceS, embBase, baseTy]
+  | .map k v, _ => by simp only [reduceS, embBase, baseTy]
+  | .struct fs, _ => by simp only [reduceS, embBase, baseTy]
+  | .bool, _ => rfl | .int k, _ => rfl | .f32, _ => rfl | .f64, _ => rfl | .str, _ => rfl | .bytes, _ => rfl
+  | .any, _ => rfl
+  | .arr n t, _ => by simp only [reduceS, embBase, baseTy]
+
+theorem embBase_reduce : ∀ t : Ty, ptrSafe t = true → embBase (reduce t) = baseTy (reduce t)
+  | .ptr t, h => by
+    simp only [ptrSafe, Bool.and_eq_true] at h
+    simp only [reduce, embBase, baseTy]; exact embBase_reduceS t h.2
+  | .named n t, h => by simp [ptrSafe] at h
+  | .slice t, _ => by simp only [reduce, embBase, baseTy]
+  | .map k v, _ => by simp only [reduce, embBase, baseTy]
+  | .struct fs, _ => by simp only [reduce, embBase, baseTy]
+  | .bool, _ => rfl | .int k, _ => rfl | .f32, _ => rfl | .f64, _ => rfl | .str, _ => rfl | .bytes, _ => rfl
+  | .any, _ => rfl
+  | .arr n t, _ => by simp only [reduce, embBase, baseTy]
+
 theorem isStructBase_reduce (t : Ty) (h : ptrSafe t = true) : isStructBase (reduce t) = isStructBase t := by
   unfold isStructBase
-  rw [baseTy_reduce t h]
+  rw [embBase_reduce t h, embBase_eq_baseTy t h, baseTy_reduce t h]
   have hh := baseTy_head t
   generalize baseTy t = b at hh
   cases b <;> simp [reduce, headBase] at hh ⊢
 
 theorem isStructBase_reduceS (t : Ty) (h : ptrSafe t = true) : isStructBase (reduceS t) = isStructBase t := by
   unfold isStructBase
-  rw [baseTy_reduceS t h]
+  rw [embBase_reduceS t h, embBase_eq_baseTy t h, baseTy_reduceS t h]
   have hh := baseTy_head t
   generalize baseTy t = b at hh
   cases b <;> simp [reduce, headBase] at hh ⊢
